@@ -53,7 +53,7 @@ func genControlled(t *rapid.T) Case {
 
 func genFree(t *rapid.T) Case {
 	c := Case{List: rapid.IntRange(0, 2).Draw(t, "list") == 0}
-	g := rapid.IntRange(2, ev.Pick(4, 8)).Draw(t, "g")
+	g := rapid.IntRange(2, ev.Pick(4, 6)).Draw(t, "g")
 	for i := 0; i < g; i++ {
 		c.Progs = append(c.Progs, rapid.SliceOfN(rapid.Custom(func(t *rapid.T) Op {
 			kinds := []string{"push", "push", "pop", "pop"}
@@ -61,7 +61,7 @@ func genFree(t *rapid.T) Case {
 				kinds = []string{"push", "push", "pushfront", "pop", "pop", "peek", "peektail", "isempty", "reset"}
 			}
 			return Op{K: rapid.SampledFrom(kinds).Draw(t, "k")}
-		}), 4, ev.Pick(12, 30)).Draw(t, "ops"))
+		}), 4, ev.Pick(12, 20)).Draw(t, "ops"))
 	}
 	return c
 }
@@ -194,7 +194,7 @@ func verdictFor(v *ev.Verdict, list bool, hist []histOp, remaining []int) {
 	for _, h := range hist {
 		ops = append(ops, porcupine.Operation{ClientId: h.client, Input: h.in, Call: h.call, Output: h.out, Return: h.rt})
 	}
-	res := porcupine.CheckOperationsTimeout(model(list), ops, 5*time.Second)
+	res := porcupine.CheckOperationsTimeout(model(list), ops, 2*time.Second)
 	switch res {
 	case porcupine.Illegal:
 		sort.Slice(hist, func(i, j int) bool { return hist[i].call < hist[j].call })
@@ -282,6 +282,8 @@ func runControlled(t *testing.T, cs Case) *ev.Verdict {
 		P [][]Op
 	}{cs.List, cs.Progs})
 	v.Canon = string(canon)
+	var finalHist []histOp
+	var finalRem []int
 	c, berr := sched.Run(t, []string{"lifo.push.cas", "lifo.pop.cas"}, cs.Sched, func(c *sched.Ctl) {
 		s := &subject{list: cs.List}
 		var clock atomic.Int64
@@ -354,7 +356,8 @@ func runControlled(t *testing.T, cs Case) *ev.Verdict {
 				retried = true
 			}
 		}
-		verdictFor(v, cs.List, hist, drain(s))
+		// the linearizability check runs outside the bubble (porcupine uses real timers and goroutines)
+		finalHist, finalRem = hist, drain(s)
 		if retried || (cs.List && len(cs.Progs) >= 2) {
 			v.SetNT(P)
 		}
@@ -366,6 +369,9 @@ func runControlled(t *testing.T, cs Case) *ev.Verdict {
 		}
 	})
 	v.Trace = c.Trace()
+	if finalHist != nil && len(v.Viol) == 0 {
+		verdictFor(v, cs.List, finalHist, finalRem)
+	}
 	if berr != "" && len(v.Viol) == 0 {
 		v.Add(P, "lifo:leak", "bubble ended with blocked goroutines: %s", berr)
 	}
